@@ -409,6 +409,7 @@ func lossSignal(cf *ssa.Function) string {
 func checkC19(p *Prog, r *Result, tier string) {
 	r.Technique = "SSA value provenance of the returned lock context + AST/CFG context-threading rules in the lock helpers and callbacks"
 	r.Explanation = "L5 context discipline. (a) For each DistributedLock implementation, on every success path of Lock/TryLock the returned context is derived (context.With*) from the ctx parameter and the cancel function of that derivation is invoked by a goroutine started there which waits on a lock-loss signal (receive from a non-context Done() channel). " +
+		"(w) in each watcher goroutine the path from the lock-loss signal (the session's Done() case, where the loss is recorded) to the goroutine's exit — where the deferred cancel runs — passes no further blocking receive: the context is cancelled at once, not when something else ends. " +
 		"(b) doLock returns the context handed back by DistributedLock.Lock. (c) both base helpers thread the context: doLock's ctx argument and its returned context are the same variable, which is the first argument of the callback invocation, so the critical section runs under a descendant of every lock's context. " +
 		"(d) inside every lock callback, synchronous code passes only contexts declared inside that callback (its parameter or derivatives), never a captured outer context. Necessary for 'a holder is told promptly': if any link is missing, a lost lock cannot cancel the critical section."
 	r.NotCovered = "the time bound (one keepalive interval); behaviour of etcd sessions and redis TTLs themselves; what callbacks do with a cancelled context"
@@ -463,6 +464,7 @@ func checkC19(p *Prog, r *Result, tier string) {
 		}
 	}
 	r.Tables["lock_implementations"] = implNames
+	checkWatcherPrompt(p, r)
 
 	g := getSCG(p, r)
 	if g == nil {
@@ -712,8 +714,8 @@ func checkC18(p *Prog, r *Result, tier string) {
 	r.Technique = "who-calls-which-primitive and argument-flow rules over the two DistributedLock wrappers (AST + types, one level of parameter binding)"
 	r.Explanation = "Only the wrapper clauses are decided, not mutual exclusion (that is a property of etcd concurrency.Mutex / redislock and their servers). " +
 		"TL1: every TryLock reaches only the non-blocking primitive (etcd Mutex.TryLock; redislock Obtain with nil options) and never the blocking one. " +
-		"TL2: every Lock calls the blocking primitive under a context derived by context.WithTimeout(ctx, <receiver's timeout field>) and propagates its error. " +
-		"TL3: every Unlock releases only its own acquisition (etcd: OpDelete only inside Then() of a Txn whose If() is mutex.IsOwner(); redis: Release on the handle stored by this lock's own Obtain; no other delete)."
+		"TL2: every Lock calls the blocking primitive under a context derived by context.WithTimeout(ctx, <receiver's timeout field>) and propagates its error; the redis retry strategy is an unbounded, stateless backoff (LinearBackoff/ExponentialBackoff) so that only the wait timeout ends the wait. " +
+		"TL3: every Unlock releases only its own acquisition (etcd: OpDelete only inside Then() of a Txn whose If() is mutex.IsOwner(); redis: Release on the handle stored by this lock's own Obtain; no other delete; no direct redis command anywhere in the wrapper package)."
 	r.NotCovered = "clause 1 (at most one holder over all schedules) — library/server behaviour; fairness; lease expiry timing"
 	r.Assumptions = []string{"A4 etcd concurrency.Mutex and muroq/redislock implement their documented semantics"}
 	_, impls := lockImpls(p, r)
@@ -767,6 +769,13 @@ func checkC18(p *Prog, r *Result, tier string) {
 						continue
 					}
 				}
+				if pc.name == redisObtain {
+					if okS, whyS := retryStrategyUnbounded(p, pc, pc.call.Args[len(pc.call.Args)-1]); !okS {
+						r.bad("TL2", key+" / retry strategy", p.pos(pc.call), whyS)
+					} else {
+						r.ok("TL2", key+" / retry strategy", p.pos(pc.call), whyS)
+					}
+				}
 				ok, why := ctxIsTimeoutOfReceiver(p, fn, pc)
 				ok2, why2 := errPropagated(pc)
 				if ok && ok2 {
@@ -777,6 +786,33 @@ func checkC18(p *Prog, r *Result, tier string) {
 			}
 		} else {
 			r.undecided("TL2", tname+".Lock waits with timeout and reports failure", "", "method not found")
+		}
+		// TL3b: nothing in the redis wrapper touches the key except through the redislock client/handle
+		if strings.Contains(tname, "lock/redis") {
+			var bad []string
+			for _, f := range p.sortedFuncs("lock/redis") {
+				f.inspectBody(func(n ast.Node) bool {
+					c, ok := n.(*ast.CallExpr)
+					if !ok {
+						return true
+					}
+					callee := f.Callee(c)
+					if callee == nil || callee.Pkg() == nil {
+						return true
+					}
+					sig, _ := callee.Type().(*types.Signature)
+					if sig == nil || sig.Recv() == nil {
+						return true
+					}
+					rt := sig.Recv().Type().String()
+					if strings.Contains(rt, "go-redis/redis") || strings.HasSuffix(rt, "redislock.RedisClient") {
+						bad = append(bad, exprStr(c.Fun)+" in "+f.Name+" at "+p.pos(c))
+					}
+					return true
+				})
+			}
+			r.check(len(bad) == 0, "TL3", tname+" / the lock key is only touched through the redislock client and handle", "", "no direct redis command in lock/redis",
+				"direct redis command(s): "+strings.Join(bad, "; ")+" — a command that is not token-checked can delete or overwrite a key that another holder owns within its lease")
 		}
 		// TL3
 		if fn := methodNode(p, nt, "Unlock"); fn != nil {
@@ -1015,4 +1051,204 @@ func definedByCall(fn *FuncNode, id *ast.Ident, callee string) bool {
 		return true
 	})
 	return cnt == 1 && ok
+}
+
+// L5w: promptness inside the watcher goroutines. A watcher is a `go func(){…}()` literal with a select case receiving from
+// the Done() channel of a non-context value (the session). In that case's body, from the statement that records the loss
+// (a method call on the returned context wrapper) no blocking receive may be reachable before the goroutine exits, and the
+// cancel function must run on exit (defer as first statement) or be called on that path.
+func checkWatcherPrompt(p *Prog, r *Result) {
+	r.min("L5w", 1)
+	n := 0
+	for _, fn := range p.sortedFuncs("lock") {
+		if fn.Lit == nil || fn.Parent == nil {
+			continue
+		}
+		// spawned with `go`?
+		isGo := false
+		ast.Inspect(fn.Parent.Body, func(x ast.Node) bool {
+			if g, ok := x.(*ast.GoStmt); ok && unparen(g.Call.Fun) == ast.Expr(fn.Lit) {
+				isGo = true
+			}
+			return true
+		})
+		if !isGo {
+			continue
+		}
+		var lossCase *ast.CommClause
+		fn.inspectBody(func(x ast.Node) bool {
+			cc, ok := x.(*ast.CommClause)
+			if !ok || cc.Comm == nil {
+				return true
+			}
+			var recv ast.Expr
+			switch c := cc.Comm.(type) {
+			case *ast.ExprStmt:
+				if u, ok := unparen(c.X).(*ast.UnaryExpr); ok && u.Op == token.ARROW {
+					recv = u.X
+				}
+			case *ast.AssignStmt:
+				if len(c.Rhs) == 1 {
+					if u, ok := unparen(c.Rhs[0]).(*ast.UnaryExpr); ok && u.Op == token.ARROW {
+						recv = u.X
+					}
+				}
+			}
+			if call, ok := unparen(recv).(*ast.CallExpr); ok {
+				if sel, ok := unparen(call.Fun).(*ast.SelectorExpr); ok && sel.Sel.Name == "Done" && !isContextType(fn.typeOf(sel.X)) {
+					lossCase = cc
+				}
+			}
+			return true
+		})
+		if lossCase == nil {
+			continue
+		}
+		n++
+		top := topOf(fn)
+		key := fmt.Sprintf("%s / lock loss cancels the returned context without waiting for anything else", top.Name+" watcher "+strings.TrimPrefix(fn.Name, top.Name))
+		// cancel on exit
+		deferCancel := false
+		if len(fn.Body.List) > 0 {
+			if ds, ok := fn.Body.List[0].(*ast.DeferStmt); ok {
+				if o := fn.objOf(ds.Call.Fun); o != nil {
+					if sig, ok := o.Type().Underlying().(*types.Signature); ok && sig.Params().Len() == 0 && sig.Results().Len() == 0 {
+						deferCancel = true
+					}
+				}
+			}
+		}
+		// loss marker: method call on a value whose type embeds context.Context (the wrapper that is returned)
+		var marker ast.Node
+		for _, st := range lossCase.Body {
+			ast.Inspect(st, func(x ast.Node) bool {
+				if c, ok := x.(*ast.CallExpr); ok && marker == nil {
+					if f := fn.Callee(c); f != nil && f.Pkg() != nil && strings.HasPrefix(relPath(f.Pkg().Path()), "lock") {
+						if sig, ok := f.Type().(*types.Signature); ok && sig.Recv() != nil {
+							marker = c
+						}
+					}
+				}
+				return true
+			})
+		}
+		why := ""
+		switch {
+		case marker == nil:
+			r.undecided("L5w", key, p.pos(lossCase), "no statement recording the loss on the returned context found in the session-done case")
+			continue
+		case !deferCancel:
+			why = "the watcher does not register `defer cancel()` first: leaving the goroutine does not cancel the returned context"
+		default:
+			mref := fn.find(marker)
+			if hit, found := fn.reach(mref, true, func(nr nodeRef) bool {
+				blocked := false
+				inspectNoLit(nr.node(), func(x ast.Node) bool {
+					if u, ok := x.(*ast.UnaryExpr); ok && u.Op == token.ARROW {
+						blocked = true
+					}
+					if _, ok := x.(*ast.SelectStmt); ok {
+						blocked = true
+					}
+					return true
+				})
+				return blocked
+			}, nil, false); found {
+				why = "after recording the loss the watcher blocks on another receive (" + p.pos(hit.node()) + ") before it returns: Err() reports the loss but Done() is not closed, so the critical section and every context derived from it stay live while another holder has the lock"
+			}
+		}
+		r.check2(why, "L5w", key, p.pos(lossCase), "loss recorded, then the goroutine returns and its deferred cancel closes Done()")
+	}
+}
+
+// retryStrategyUnbounded: the options expression of a blocking Obtain resolves to &redislock.Options{RetryStrategy: X} with
+// X a call of redislock.LinearBackoff or redislock.ExponentialBackoff (stateless, unlimited): only the context ends the wait.
+func retryStrategyUnbounded(p *Prog, pc primCall, e ast.Expr) (bool, string) {
+	e = unparen(e)
+	fn := pc.fn
+	if id, ok := e.(*ast.Ident); ok {
+		obj := fn.Pkg.TypesInfo.ObjectOf(id)
+		if pc.bind != nil {
+			if a, ok := pc.bind[obj]; ok {
+				e, fn = unparen(a), pc.bindFn
+			}
+		}
+	}
+	id, ok := e.(*ast.Ident)
+	if !ok {
+		return false, "retry options are not a package-level variable: " + exprStr(e)
+	}
+	obj := fn.Pkg.TypesInfo.ObjectOf(id)
+	var init ast.Expr
+	for _, f := range fn.Pkg.Syntax {
+		ast.Inspect(f, func(n ast.Node) bool {
+			if vs, ok := n.(*ast.ValueSpec); ok {
+				for i, nm := range vs.Names {
+					if fn.Pkg.TypesInfo.ObjectOf(nm) == obj && i < len(vs.Values) {
+						init = vs.Values[i]
+					}
+				}
+			}
+			return true
+		})
+	}
+	if init == nil {
+		return false, "retry options variable has no initializer"
+	}
+	// written elsewhere?
+	for _, f := range p.sortedFuncs(relPath(fn.Pkg.PkgPath)) {
+		w := false
+		f.inspectBody(func(n ast.Node) bool {
+			if as, ok := n.(*ast.AssignStmt); ok {
+				for _, l := range as.Lhs {
+					if f.objOf(l) == obj {
+						w = true
+					}
+					if sel, ok := unparen(l).(*ast.SelectorExpr); ok && f.objOf(sel.X) == obj {
+						w = true
+					}
+				}
+			}
+			return true
+		})
+		if w {
+			return false, "the shared retry options are modified at run time in " + f.Name
+		}
+	}
+	x := unparen(init)
+	if u, ok := x.(*ast.UnaryExpr); ok {
+		x = unparen(u.X)
+	}
+	lit, ok := x.(*ast.CompositeLit)
+	if !ok {
+		return false, "retry options are not a literal"
+	}
+	for _, el := range lit.Elts {
+		kv, ok := el.(*ast.KeyValueExpr)
+		if !ok || exprStr(kv.Key) != "RetryStrategy" {
+			continue
+		}
+		c, ok := unparen(kv.Value).(*ast.CallExpr)
+		if !ok {
+			return false, "RetryStrategy is not a constructor call"
+		}
+		tv := fn.Pkg.TypesInfo.Uses
+		_ = tv
+		var callee *types.Func
+		switch f := unparen(c.Fun).(type) {
+		case *ast.SelectorExpr:
+			callee, _ = fn.Pkg.TypesInfo.ObjectOf(f.Sel).(*types.Func)
+		case *ast.Ident:
+			callee, _ = fn.Pkg.TypesInfo.ObjectOf(f).(*types.Func)
+		}
+		if callee == nil {
+			return false, "RetryStrategy constructor not resolved"
+		}
+		switch fullObjName(callee) {
+		case "github.com/muroq/redislock.LinearBackoff", "github.com/muroq/redislock.ExponentialBackoff":
+			return true, "retry strategy " + callee.Name() + ": stateless and unlimited, the wait ends only with the timeout context"
+		}
+		return false, "retry strategy is " + exprStr(kv.Value) + ": a bounded or stateful strategy (LimitRetry keeps one counter for the shared options value, i.e. for every Lock call of the process) makes waiters give up before their wait timeout although the holder would have released in time"
+	}
+	return false, "options literal has no RetryStrategy: Lock does not wait at all"
 }
